@@ -51,6 +51,9 @@ CHECKS = {
  "C27": dict(level="exploration", technique="deterministic simulation of Go map iteration order inside the compiler: every range-over-map on the compile path (75 sites in 49 files, AST-located, text-spliced copies injected with go build -overlay) yields its keys in an order chosen by the seeded schedule (reverse, rotate, swap, shuffle, per site or everywhere); WAT and wasm hashes compared between canonical and permuted orders, between repeats in one process and across worker processes; tape shrinking isolates the responsible range site",
    text="Seeded search over programs of the repository's corpus, configurations and map-order schedules. Any permutation is a legal Go execution, so a hash difference between the canonical and a permuted order is a real nondeterminism of the compiler; the minimised replay names the source position of the range statement whose order reaches the output. Repeat compiles in one process and baselines across 16 processes cover state leaking between compiles and sources outside the seam. Evidence, not proof.",
    note="only map iteration order is behind the seam; addresses, goroutines and time are covered by repeat/cross-process comparison only; pointer/interface keys get first-store serial numbers as canonical order (nonreplayable_keys probe must be 0)", ref="DESIGN.md section 4 C27"),
+ "C28": dict(level="exploration", technique="deterministic simulation of concurrent API callers: every scenario runs in its own cold OS process under a token scheduler with seeded PCT pre-emption points over ~4600 AST-inserted yield points (every statement touching a package-level variable and every function entry on the API path, 300 rewritten files), simulator-aware Mutex/RWMutex/Once, canonical map order for exact replay, and a vector-clock happens-before monitor over every map access; oracle = each call's result equals its solo result in a cold process; shrunk replayable tapes",
+   text="Seeded search over caller/call mixes (build, run, format, syntax detection on well-typed, ill-typed and unparsable .wa/.wz programs) and pre-emption placements. A call whose result differs from the same call run alone, a panic, a scheduler-detected deadlock, a dead child process, or two happens-before-unordered accesses to one Go map (one a write) by different callers is a violation. The sequential run of each scenario in one process is checked against the solo results as well. Evidence, not proof.",
+   note="interleavings at yield granularity (package-level variable accesses and function entries); the vendored wazero engine and the standard library run atomically; memory-model races on non-map data that change no result are out of reach and are not reported", ref="DESIGN.md section 4 C28"),
 }
 ORDER = ["C10","C11","C12","C13","C21","C25","C26","C27","C28"]
 m = {
